@@ -11,7 +11,7 @@ LEVEL = 'proof'
 def run_check(ctx):
     st = coq.proof_stage(ctx, 'Props.C15', VO + ['Props/C13.vo'], FILES)
     finish_proof(ctx, st)
-    scale = 1 if ctx.tier == 'quick' else 6
+    scale = 1 if ctx.tier == 'quick' else 16
     rng = ctx.rng; pool = Pool('ark', rng.fork('pool'), n_rand=3 * scale)
     # (a) matrix digests per (gadget, mode) over structured inputs: must be identical for every input
     groups = {}
